@@ -244,6 +244,10 @@ def run(cx):
     from props.shared import cull_always_drains, nofeedback_timer_writers
     cull_always_drains(cx, "C15.n")
     nofeedback_timer_writers(cx, "C15.o")
+    # the acknowledgement a sender receives names the frames the receiver saw: the receiver's queue of owed groups hands
+    # out each group once, oldest first
+    from props.shared import ack_queue_discipline
+    ack_queue_discipline(cx, "C15.p")
 
 
 def group_width(cx, iid):
@@ -322,7 +326,9 @@ def log_lookup_siblings(cx, iid):
                 e = show(b.call_expr(t))
                 inst.site(b, l, e[:100])
                 ix = show(b.operand_expr(t["args"][1]))
-                idx.setdefault(fn, set()).add(_strip_casts(ix))
+                # widening casts (to usize / u64) are transparent, a narrowing one (`as u8 as usize`) is part of the index
+                keep = re.sub(r"cast<(u8|u16|u32|i8|i16|i32)>\(", lambda m_: "narrow_%s(" % m_.group(1), ix)
+                idx.setdefault(fn, set()).add(_strip_casts(keep))
                 if R.short(t["fn"]).split("::")[-1].startswith("index") and not _index_call_auto(cx, b, l, "arg1.frames", ix):
                     inst.violation(b.path, "unchecked log index", "%s indexes the log with `%s` without `index < len` established on every path: an acknowledgement naming a frame that is not in the log must be ignored, not panic" % (fn, ix), at=b.span_at(l))
         if len(idx) != 2 or idx["FrameLog::get_frame"] != idx["FrameLog::get_frame_mut"] or any(len(v) != 1 for v in idx.values()):
